@@ -40,6 +40,8 @@ _a("imin32m1", -2 ** 31 - 1, num("-2147483649"))
 _a("i2p32", 2 ** 32, num("4294967296"))
 _a("i2p63", 2 ** 63, num("9223372036854775808"))
 _a("i2p64p1", 2 ** 64 + 1, num("18446744073709551617"))
+_a("i10p5000", 10 ** 5000, num("10^5000"))        # beyond CPython's int -> decimal str digit limit (4300)
+_a("i-10p5000", -(10 ** 5000), num("-10^5000"))
 _a("f0", 0.0, num("0"), core=True)
 _a("f-0", -0.0, num("0"))
 _a("f1", 1.0, num("1"))
@@ -64,6 +66,7 @@ _a("s_brackets", "[]", ["str", "[]"])
 _a("s_hex_a", HEX_A, ["str", HEX_A], core=True)
 _a("s_a_pipe_a", "a|a", ["str", "a|a"])
 _a("s_unicode", "ü中", ["str", "u-umlaut-zhong"])
+_a("s_surrogate", "\ud800x", ["str", "lone-surrogate-x"])     # a valid str that strict utf-8 cannot encode
 _a("s_True", "True", ["str", "True"])
 _D = datetime.date(2020, 1, 2)
 _a("date", _D, ["str", repr(_D)], core=True, key1=True)
@@ -84,6 +87,8 @@ _a("u_bytes", b"raw", ["unsupported", "bytes"], core=True, sup=False, key1=True)
 _a("u_set", frozenset([1]), ["unsupported", "set"], sup=False)
 _a("u_complex", 1j, ["unsupported", "complex"], sup=False)
 _a("u_object", object, ["unsupported", "type"], sup=False)
+import threading  # noqa
+_a("u_lock", threading.Lock(), ["unsupported", "lock"], sup=False)       # cannot be copied / pickled
 
 
 def by_id() -> Dict[str, Dict[str, Any]]:
